@@ -222,13 +222,16 @@ Spec == Init /\ [][Next]_st
 \* the numbering scheme yields distinct, legal identifiers for every sibling sequence of the pool
 DistinctLegalInv == Mode = "design" => DesignOK(st)
 
-\* every minimal counterexample once; supersets of a counterexample are not explored
+\* every minimal counterexample once (supersets of a counterexample are not explored), and what
+\* the model assigns to every sequence of one or two siblings (conformance of the transcription)
+DesignRec(s) == [level |-> s.lvl, isdir |-> s.isdir, names |-> s.sibs,
+                 idents |-> MangleWithNumbering(Sibs(s), s.lvl),
+                 spans |-> Len(s.sibs) > 0 /\ PrefixSpansSeparator(Last(s.sibs), s.isdir, s.lvl)]
 DumpDesign ==
-    (Mode = "design" /\ ~DesignOK(st)) =>
-        /\ PrintT(<<"DESIGN", ToJson([level |-> st.lvl, isdir |-> st.isdir, names |-> st.sibs,
-                                      idents |-> MangleWithNumbering(Sibs(st), st.lvl),
-                                      spans |-> PrefixSpansSeparator(Last(st.sibs), st.isdir, st.lvl)])>>)
-        /\ FALSE
+    Mode = "design" =>
+        IF DesignOK(st)
+        THEN (Len(st.sibs) \in {1, 2}) => PrintT(<<"MODEL", ToJson(DesignRec(st))>>)
+        ELSE PrintT(<<"DESIGN", ToJson(DesignRec(st))>>) /\ FALSE
 
 DumpCases ==
     (Mode = "cases" /\ st.stage > 0) =>
